@@ -18,7 +18,12 @@
      form (:F) ::= 0 delete(p) 1 delete(p,size_t) 2 delete(p,nothrow) 3 delete(p,file,int) 4 delete(p,file,size_t) 5..9 the same of delete[]
                    a cpputest_free b cpputest_free_location
    Every scenario starts in a fresh process image: the eleven function pointers as their static initialisers leave them.
-   Observation: one item per :f / :F / :r :   | calls cat nfreed (addr $bytes|~)*nfreed total res *)
+   Observation: one item per :f / :F / :r :   | calls cat nfreed (addr $bytes|~)*nfreed total res
+   Second kind (sizes at the edges, coq/C06_Edge.v):  :E <jump 0|1> <n> desc*n eop*
+     eop  ::= :A form al addr size | :F form al addr|~ | :r al addr|~ newaddr size | :t 0|1
+              addr = 0x10000000 + k * 0x1200000 (+ offset for :F / :r), k < 4;  size = any size_t (hex)
+   Observation: one item per :A / :F / :r :   | calls cat nfreed (addr surviving first)*nfreed total res
+              surviving = user bytes of the returned block that are not poison, first = offset of the first of them *)
 let entry_of = function 0 -> ENew | 1 -> ENewArr | 2 -> EMalloc | 3 -> EString | 4 -> EDirect false | 5 -> EDirect true | _ -> raise (Bad "entry")
 let aform_of = function 0 -> ANew | 1 -> ANewNothrow | 2 -> ANewFileInt | 3 -> ANewFileSize | 4 -> AArr | 5 -> AArrNothrow | 6 -> AArrFileInt
   | 7 -> AArrFileSize | 8 -> AMalloc | 9 -> AMallocLoc | 10 -> ACalloc | 11 -> AStrdup | 12 -> AStrndup | _ -> raise (Bad "allocating form")
@@ -61,9 +66,31 @@ let pitem x =
   String.concat " " (["|"; pn x.o_calls; pn x.o_cat; Printf.sprintf "%x" (List.length x.o_freed)]
                      @ List.concat_map (fun (a, b) -> [pn a; poptbytes b]) x.o_freed
                      @ [pn x.o_total; pbool x.o_res])
+let rec eops c =
+  if at_end c then [] else
+  let o = match next c with
+    | ":A" -> let f = aform_of (int_tok (next c)) in let al = nat_tok (next c) in let a = n_tok (next c) in let sz = n_tok (next c) in EAlloc (f, al, a, sz)
+    | ":F" -> let f = rform_of (int_tok (next c)) in let al = nat_tok (next c) in let p = optaddr (next c) in EFree (f, al, p)
+    | ":r" -> let al = nat_tok (next c) in let p = optaddr (next c) in let na = n_tok (next c) in let sz = n_tok (next c) in ERealloc (al, p, na, sz)
+    | ":t" -> ETypeCheck (bool_tok (next c))
+    | t -> raise (Bad ("edge op " ^ t)) in
+  o :: eops c
+let escenario ts =
+  let c = { rest = ts } in
+  let j = bool_tok (next c) in
+  let ds = counted c desc in
+  { es_jump = j; es_allocs = ds; es_ops = eops c }
+let yscenario ts = match ts with ":E" :: r -> YEdge (escenario r) | _ -> YPlug (scenario ts)
+let peitem x =
+  String.concat " " (["|"; pn x.x_calls; pn x.x_cat; Printf.sprintf "%x" (List.length x.x_freed)]
+                     @ List.concat_map (fun (a, (k, f)) -> [pn a; pn k; pn f]) x.x_freed
+                     @ [pn x.x_total; pbool x.x_res])
 let run_line ts =
-  let s = scenario ts in
-  if not (pvalid s) then raise (Bad "invalid scenario") else String.concat " " (List.map pitem (prun s))
+  let s = yscenario ts in
+  if not (yvalid s) then raise (Bad "invalid scenario") else
+  match yrun s with
+  | YOPlug l -> String.concat " " (List.map pitem l)
+  | YOEdge l -> String.concat " " (List.map peitem l)
 let rec items c =
   if at_end c then [] else begin
     (match next c with "|" -> () | t -> raise (Bad ("item " ^ t)));
@@ -76,4 +103,20 @@ let rec items c =
     i :: items c
   end
 (* an invalid scenario (only the shrinker produces them) is outside the property's quantifier: not a failing input *)
-let spec_line ts os = let s = scenario ts in if not (pvalid s) then true else pspec s (items { rest = os })
+let rec eitems c =
+  if at_end c then [] else begin
+    (match next c with "|" -> () | t -> raise (Bad ("item " ^ t)));
+    let calls = n_tok (next c) in
+    let cat = n_tok (next c) in
+    let fr = counted c (fun c -> let a = n_tok (next c) in let k = n_tok (next c) in let f = n_tok (next c) in (a, (k, f))) in
+    let total = n_tok (next c) in
+    let res = bool_tok (next c) in
+    let i = { x_calls = calls; x_cat = cat; x_freed = fr; x_total = total; x_res = res } in
+    i :: eitems c
+  end
+let spec_line ts os =
+  let s = yscenario ts in
+  if not (yvalid s) then true else
+  match s with
+  | YPlug _ -> yspec s (YOPlug (items { rest = os }))
+  | YEdge _ -> yspec s (YOEdge (eitems { rest = os }))
